@@ -10,10 +10,12 @@ RULE = ("a sim::socks_server (version 4 or 5) on node 1; a raw origin on node 3 
         "v4 CONNECT/BIND) to a reachable, refusing or unresolvable target followed by payload in both directions, or a malformed stream obtained by "
         "mutating one field of a valid negotiation (version, method count 0/128/200/255, methods without no-auth, command 0/4/128/200/255, reserved byte, "
         "address type, name length 0/1/2/255, SOCKS4 user id) or by truncation, random bytes, or 200 kB of filler; all streams cut at random points into "
-        "1-6 writes spaced in time; cmd_counts() read at the end; run under AddressSanitizer + UBSan + libstdc++ assertions; "
+        "1-6 writes spaced in time; cmd_counts() read at the end; bulk transfers (150 kB both ways at once, second leg slower than the first); "
+        "UDP ASSOCIATE scenarios (client datagrams with IPv4 and host-name headers to two targets, replies, a stranger's datagram, unknown address "
+        "types, fragments, truncated headers, bad name lengths); run under AddressSanitizer + UBSan + libstdc++ assertions; "
         "non-trivial = at least one reply byte received by a client")
 TRUSTED = ["model: coq/Model/Apps.v socks_* (hand-written from src/socks_server.cpp) over Sim.v sockets/resolver",
-           "UDP ASSOCIATE is modelled up to its reply; datagram forwarding (on_read_udp) is not modelled and not exercised",
+           "UDP ASSOCIATE incl. the datagram path is modelled for IPv4 sources; a datagram from an IPv6 source is not (the C++ calls to_v4() on it) and is not generated",
            "expected replies of the oracle: an independent Python reading of the property statement and of RFC 1928 / SOCKS4"]
 ASSUMPTIONS = ["every route contains a queue; no packet loss", "IPv4 targets only (the server rejects address type 4)"]
 
